@@ -277,6 +277,8 @@ func (st *State) addTrace(ev TraceEv) {
 // Engine-wide fresh names
 
 type Engine struct {
+	noDBInv     bool              // flag nodbinv: the database invariant is not assumed while verifying this function
+	loopsSeen   map[string]bool   // loop headers met while executing the function under contract (incl. inlined callees)
 	schemaText  string            // schema.sql of the tree under check (schema obligations)
 	// loops without an invariant in the contract file (typically introduced or moved by a refactoring):
 	autoLoop    map[string][]int  // map-range loop -> indices of the candidate invariants still in use
